@@ -1,0 +1,52 @@
+//go:build verif
+
+// Contracts for package outbound, read by /verif/govc (comment-only file).
+
+package outbound
+
+// C15: every attempt of a selection - the requested network type, the other IP family when allowed,
+// and the single-node last resort - is made with the caller's exclusion; the family fallback is taken
+// only when the caller allows it; the last resort only for a one-node group with the fixed(0) policy.
+//@ func (*DialerGroup).SelectWithExclusionResult
+//@   nonilcheck
+//@   modifies *
+//@   at call _select#1 assert a1 == networkType && a4 == excluded
+//@   at call _select#2 assert !strictIpVersion && a4 == excluded && a1 != networkType
+//@   at call _select#3 assert a1 == networkType && a4 == excluded && len(g.Dialers) == 1 && a3.Policy == consts.DialerSelectionPolicy_Fixed && a3.FixedIndex == 0
+
+//@ func preferAlternateSelectionNetworkType
+//@   trusted
+//@ func alternateNetworkType
+//@   trusted
+
+// the health domains a selection tries, in order: the requested one; for data UDP under a non-fixed
+// policy additionally DNS-UDP and then TCP of the same IP family.
+//@ func (*DialerGroup).selectionNetworkTypes
+//@   nonilcheck
+//@   let dataUdp() = policy.Policy != consts.DialerSelectionPolicy_Fixed && networkType.L4Proto == consts.L4ProtoStr_UDP && networkType.EffectiveUdpHealthDomain() == dialer.UdpHealthDomainData
+//@   ensures networkTypes[0] == deref(networkType)
+//@   ensures !dataUdp() ==> count == 1
+//@   ensures dataUdp() ==> count == 3
+//@   ensures dataUdp() ==> networkTypes[1].L4Proto == consts.L4ProtoStr_UDP && networkTypes[1].IpVersion == networkType.IpVersion && networkTypes[1].IsDns && networkTypes[1].UdpHealthDomain == dialer.UdpHealthDomainDns
+//@   ensures dataUdp() ==> networkTypes[2].L4Proto == consts.L4ProtoStr_TCP && networkTypes[2].IpVersion == networkType.IpVersion && !networkTypes[2].IsDns && networkTypes[2].UdpHealthDomain == dialer.UdpHealthDomainUnset
+
+// one selection attempt: fixed(i) returns the i-th node whatever the exclusion; random and the min
+// policies return a node that is alive in one of the group's sets and is not the excluded node, and
+// report ErrNoAliveDialer only when the requested domain's set has no candidate.
+//@ func (*DialerGroup)._select
+//@   nonilcheck
+//@   let setOf(k int) = state.aliveDialerSets[k]
+//@   let isMin() = policy.Policy == consts.DialerSelectionPolicy_MinLastLatency || policy.Policy == consts.DialerSelectionPolicy_MinAverage10Latencies || policy.Policy == consts.DialerSelectionPolicy_MinMovingAverageLatencies
+//@   let isRand() = policy.Policy == consts.DialerSelectionPolicy_Random
+//@   requires networkType != nil && state != nil
+//@   requires forall k int {setOf(k)} :: 0 <= k && k < 8 ==> setOf(k) != nil && dialer.wfSet(setOf(k))
+//@   ensures len(g.Dialers) > 0 && policy.Policy == consts.DialerSelectionPolicy_Fixed && 0 <= policy.FixedIndex && policy.FixedIndex < len(g.Dialers) ==> err == nil && d == g.Dialers[policy.FixedIndex]
+//@   ensures policy.Policy == consts.DialerSelectionPolicy_Fixed && (policy.FixedIndex < 0 || policy.FixedIndex >= len(g.Dialers)) ==> err != nil
+//@   ensures (isRand() || isMin()) && err == nil ==> d != nil && (excluded != nil ==> d != excluded) && (exists k int :: 0 <= k && k < 8 && dialer.isAliveIn(setOf(k), d))
+//@   ensures (isRand() || isMin()) && len(g.Dialers) > 0 && err != nil ==> d == nil && (forall i int :: 0 <= i && i < dialer.nEnt(setOf(networkType.Index())) ==> dialer.entD(setOf(networkType.Index()), i) == excluded)
+//@   loop 1
+//@     invariant 0 <= $iter && $iter < count && count <= 3 && (count == 1 || count == 3) && networkTypes[0] == deref(networkType)
+//@     invariant $iter >= 1 ==> (forall i int :: 0 <= i && i < dialer.nEnt(setOf(networkType.Index())) ==> dialer.entD(setOf(networkType.Index()), i) == excluded)
+//@   loop 2
+//@     invariant 0 <= $iter && $iter < count && count <= 3 && (count == 1 || count == 3) && networkTypes[0] == deref(networkType)
+//@     invariant $iter >= 1 ==> (forall i int :: 0 <= i && i < dialer.nEnt(setOf(networkType.Index())) ==> dialer.entD(setOf(networkType.Index()), i) == excluded)
